@@ -193,7 +193,7 @@ def child_history(steps):
         res = query(cls, rec)
         d = classes.describe(cls)
         rx = cls.__dict__.get("_regex")
-        cached = dna.tokens(rx.pattern) if rx is not None else []
+        cached = dna.tokens_or_empty(rx.pattern) if rx is not None else []
         all_specs[cls.__name__] = cls
         slots = sorted(n for n, k in all_specs.items() if k.__dict__.get("_regex") is not None)
         # every class of the kit modules holding a slot (not only those asked) would be better: collect them
